@@ -124,6 +124,8 @@ struct scenario
     }
 };
 
+extern volatile int g_current_op;
+
 std::string run(const std::vector<std::string> & tok)
 {
     if (tok.size() < 2 || tok[0] != "client") return "bad-op";
@@ -163,6 +165,8 @@ std::string run(const std::vector<std::string> & tok)
             for (const std::string & gs : split(script, '/')) { group g; if (!parse_group(gs, g)) return "bad-op"; groups.push_back(g); }
         sc.srv.begin_op(groups);
         emit("op:" + std::to_string(k - 2));
+        g_current_op = static_cast<int>(k - 2);
+        alarm(20);                                  // watchdog per operation
         take_log();
         sc.ms->in.reads_at_end_this_call = 0;
         rec_sink sink; chop_source src; rec_callback cb; bool have_sink = false;
@@ -307,10 +311,13 @@ std::string run(const std::vector<std::string> & tok)
     return out;
 }
 
+volatile int g_current_op = -1;
+
 void on_alarm(int)
 {
-    static const char msg[] = " => HANG\n";
-    ssize_t w = ::write(1, msg, sizeof msg - 1); (void)w;
+    char msg[64];
+    int n = std::snprintf(msg, sizeof msg, " => HANG op:%d\n", g_current_op);
+    ssize_t w = ::write(1, msg, static_cast<std::size_t>(n)); (void)w;
     _exit(3);
 }
 
